@@ -542,6 +542,27 @@ pub fn c11(tier: Tier) -> ! {
                 }
             }
         }
+        // groups the crate does not ship, handed over as operation strings (their lattice
+        // operations are not orthogonal matrices): hexagonal p3 and p3m1, square p4
+        for (name, fam, ops) in [
+            ("p3", packing::CrystalFamily::Hexagonal, vec!["x,y", "-y,x-y", "-x+y,-x"]),
+            ("p3m1", packing::CrystalFamily::Hexagonal, vec!["x,y", "-y,x-y", "-x+y,-x", "-y,-x", "-x+y,y", "x,x-y"]),
+            ("p4", packing::CrystalFamily::Tetragonal, vec!["x,y", "-y,x", "-x,-y", "y,-x"]),
+        ]
+        .iter()
+        {
+            let wg = packing::wallpaper::WallpaperGroup { name, family: *fam, wyckoff_str: ops.clone() };
+            if let (Ok(h), Ok(l)) = (PackedState::from_group(LineShape::polygon(3).unwrap(), &wg), PotentialState::from_group(LJShape2::from_trimer(0.637556, 120., 1.), &wg)) {
+                for st in vec![AnyState::Poly(h), AnyState::Lj(l)] {
+                    let nb = st.basis_values().len();
+                    let vals = [0.3125, -0.1875, 1.25];
+                    for k in 0..3.min(nb) {
+                        st.set_basis_value(nb - 1 - k, vals[k]);
+                    }
+                    multi.push((format!("{} handed over as operation strings", name), st));
+                }
+            }
+        }
         let mut n_multi = 0u64;
         for (label, st) in multi.iter() {
             n_multi += 1;
